@@ -1213,6 +1213,12 @@ class CallMixin:
     def bi_float(self, args, kw, node, st):
         v = args[0]
         if isinstance(v, str) and v.lower() in ("nan", "inf", "-inf"):
+            if not self.spec:
+                # floats are modelled as reals (A-real): NaN / infinities have no value in the model.  Producing one is therefore
+                # an exit of its own kind: on every path the contract admits, `float("nan")` must be unreachable unless the
+                # contract lists NotAReal among its raises (obligation safe.no_NotAReal[..], with the solver's counter-model)
+                self.may_raise(z3.BoolVal(True), "NotAReal", node)
+                return z3.RealVal(0)
             return VConc(float(v))
         if is_int(v) or is_real(v):
             return to_z3(v, "real") if not is_conc(v) else Fraction(v)
